@@ -64,4 +64,6 @@ NoNbf == [k |-> "absent", v |-> 0]
 \* scenario emission: one line per complete behaviour
 \* (EmitEvery = 1: every behaviour; k: a 1/k sample; 0: none)
 EmitScenario == (ph = "done" /\ EmitEvery > 0) => (IF TLCGet("generated") % EmitEvery = 0 THEN PrintT(<<"SCN", ToJson(hist)>>) ELSE TRUE)
+\* simulation mode (TLCGet("generated") is undefined there): every complete behaviour
+EmitAll == (ph = "done") => PrintT(<<"SCN", ToJson(hist)>>)
 =============================================================================
